@@ -164,7 +164,7 @@ def r_pack_field(descs, f, vals):
             raise RefErr("buflen")
         return bytes(b)
     if t == "spare":
-        return bytes([f.get("fill", 0)]) * f["len"]
+        return bytes([f.get("fill", 0)]) * (vals[f["lref"]] if "lref" in f else f["len"])
     if t == "bits":
         k = (id(f), tuple([vals[p[0]] for p in f["parts"] if p[0] is not None and p[2] is None]))
         b = _memo.get(k)
@@ -271,7 +271,9 @@ def make_env_class(descs, shared=None):
             o = C.Buf(f["n"], len=f["len"]) if f.get("len") else C.Buf(f["n"])
         elif t == "spare":
             kw = {"filler": bytes([f["fill"]])} if "fill" in f else {}
-            o = C.Spare(f["n"], len=f["len"], **kw)
+            if f.get("len"):
+                kw["len"] = f["len"]
+            o = C.Spare(f["n"], **kw)               # without len: length from the get_len callback set below
         elif t == "bits":
             kw = {}
             if f.get("len"):
@@ -340,7 +342,7 @@ INTS = {
 }
 ENV_INTS = ["U8", "U16BE", "U16LE", "U32BE", "U32LE", "I8", "I16BE", "I16LE", "I32BE", "I32LE", "U24", "I40", "U64",
             "U8om", "I8neg"]
-ENV_ATOMS = ENV_INTS + ["B1", "B4", "S1", "S3", "BufL", "BufFlex", "FLG", "OptU16", "OptB2", "BFS16L", "BFS24P",
+ENV_ATOMS = ENV_INTS + ["B1", "B4", "S1", "S3", "SpareL", "BufL", "BufFlex", "FLG", "OptU16", "OptB2", "BFS16L", "BFS24P",
                         "NEST", "NESTF", "SEQ"]
 TRAILING_ONLY = ("BufFlex", "NESTF", "SEQ")
 
@@ -368,6 +370,14 @@ def atom(kind, i, st):
         return [{"t": "spare", "n": n, "len": 1, "kind": kind}]
     if kind == "S3":
         return [{"t": "spare", "n": n, "len": 3, "fill": 0xaa, "kind": kind}]
+    if kind == "SpareL":
+        # variable-length padding: 0..4 filler octets, the length is the value of an earlier Uint8
+        if not st["u8"]:
+            return None
+        ld = st["u8"].pop()
+        ld["vals"] = [0, 1, 2, 3, 4]
+        ld["kind"] = "U8(padlen)"
+        return [{"t": "spare", "n": n, "lref": ld["n"], "fill": 0x2b, "kind": kind}]
     if kind == "BufL":
         if not st["u8"]:
             return None
@@ -599,6 +609,9 @@ def uniq(xs):
 
 
 def int_values(f, size):
+    if "vals" in f:
+        v = f["vals"]
+        return list(v) if size == 5 else ([v[0], v[len(v) // 2], v[-1]] if size == 3 else [v[0], v[-1]])
     lo, hi = int_range(f)
     p = pattern(8 * f["len"])
     if f["sg"] and p > hi:
@@ -641,7 +654,7 @@ def seq_values(f, size):
         out += [[x, y, z] for x in triples for y in triples for z in triples]
         return out
     emin, epat, emax = a3[0], a3[len(a3) // 2], a3[-1]
-    vs = [[], [emin], [epat, emax], [emax, emin, epat], [epat]]
+    vs = [[], [emin], [epat], [epat, emax], [emax, emin, epat]]           # shortest first, longest last
     return vs if size == 5 else ([[], [epat, emax], [emax, emin, epat]] if size == 3 else [[], [emax, emin, epat]])
 
 
@@ -752,6 +765,56 @@ def deep_copy(v):
     return v
 
 
+def driving_slots(descs, prefix=()):
+    """paths of the values that decide a length or a presence: a length field read by a callback, a buffer whose
+    length goes into a derived length field, a presence flag, a flexible buffer, a sequence"""
+    refs = set(f["lref"] for f in descs if "lref" in f) | set(f["opt"] for f in descs if "opt" in f)
+    out = []
+    for f in descs:
+        t = f["t"]
+        if t == "int" and f["n"] in refs and "derive" not in f:
+            out.append(prefix + (f["n"],))
+        elif t == "buf" and ("lref" in f or not f.get("len")):
+            out.append(prefix + (f["n"],))
+        elif t == "bits":
+            out += [prefix + (p[0],) for p in f["parts"] if p[0] in refs]
+        elif t == "seq":
+            out.append(prefix + (f["n"],))
+        elif t == "env":
+            out += driving_slots(f["fields"], prefix + (f["n"],))
+    return out
+
+
+def extreme_assignments(descs, limit):
+    """[] when nothing in the definition has a variable length / presence; otherwise up to `limit` assignments:
+    every driving value smallest, every driving value largest, then one of them largest at a time; all other
+    fields hold their pattern value"""
+    drv = driving_slots(descs)
+    if not drv:
+        return []
+    sl = slots(descs, 5)
+    byp = {path: (values, opt) for path, values, opt in sl}
+    drv = [p for p in drv if p in byp]
+
+    def build(maxed):
+        vals = skeleton(descs)
+        for path, values, opt in sl:
+            if path in drv:
+                set_path(vals, path, values[-1] if path in maxed else values[0])
+            else:
+                set_path(vals, path, values[len(values) // 2])
+        for path, values, opt in sl:
+            if opt is not None and not get_path(vals, opt):
+                del_path(vals, path)
+        return vals
+    out = []
+    for maxed in [()] + [tuple(drv)] + [(p,) for p in drv]:
+        v = build(maxed)
+        if v not in out:
+            out.append(v)
+    return out[:limit]
+
+
 def has_nested(descs):
     return any(f["t"] in ("env", "seq") for f in descs)
 
@@ -786,24 +849,64 @@ def subset(a, b):
 # ---------------------------------------------------------------------------
 # judging one program
 
+PROG_LIMIT = 20
+PROG_SEEN = 2000
+CHUNK_LIMIT = 60
+
+
+class StopProg(Exception):
+    pass
+
+
+def runaway(c, nbytes):
+    """a decoded list that cannot have come from nbytes octets (every sequence element takes at least one)"""
+    if isinstance(c, dict):
+        return any(runaway(x, nbytes) for x in c.values())
+    if isinstance(c, list):
+        return len(c) > nbytes or any(runaway(x, nbytes) for x in c[:8])
+    return False
+
+
 class Judge:
     def __init__(self, prog, size, ndiag=5):
         self.prog = prog
         self.size = size
         self.ndiag = ndiag
+        self.nextreme = 4 if ndiag <= 3 else 6
         self.out = []
+        self.seen = 0
+        self.perkey = {}
         self.cov = {"programs": 1, "assignments": 0, "error_cases": 0, "truncations": 0, "trailing": 0,
                     "illegal_values": 0, "fixed_flips": 0, "noncanonical": 0, "overwide": 0, "evaluations": 0,
-                    "octets_encoded": 0, "valid_prefixes": 0, "length_lies": 0, "history_pairs": 0}
+                    "octets_encoded": 0, "valid_prefixes": 0, "length_lies": 0, "history_pairs": 0, "history_pairs_ordered": 0,
+                    "programs_order_complete": 0, "programs_cut_short": 0}
         self.case = {"prog": prog, "size": size, "ndiag": ndiag}
 
     def viol(self, law, kind, msg):
-        self.out.append(("C16:%s:%s" % (law, kind), self.case, "%s: %s" % (self.prog_name(), msg)))
+        """<= 3 instances per key; the program is abandoned after PROG_LIMIT recorded / PROG_SEEN seen violations
+        (nothing is gained by enumerating on, and the code under test may be running away)"""
+        key = "C16:%s:%s" % (law, kind)
+        self.seen += 1
+        n = self.perkey.get(key, 0)
+        if n < 3:
+            self.perkey[key] = n + 1
+            if len(msg) > 1500:
+                msg = msg[:1500] + " ... (%d characters)" % len(msg)
+            self.out.append((key, self.case, "%s: %s" % (self.prog_name(), msg)))
+        if len(self.out) >= PROG_LIMIT or self.seen >= PROG_SEEN:
+            raise StopProg()
 
     def prog_name(self):
         return "definition %s" % (self.prog,)
 
     def run(self):
+        try:
+            return self.run_all()
+        except StopProg:
+            self.cov["programs_cut_short"] = 1
+            return self
+
+    def run_all(self):
         _memo.clear()
         descs = make_desc(self.prog)
         if descs is None:
@@ -830,27 +933,44 @@ class Judge:
         return self
 
     def history(self, diag):
-        """one definition object used repeatedly: what an earlier call returned must not change afterwards.
+        """one definition object used repeatedly: what an earlier call returned must not change afterwards and a
+        later call must not depend on an earlier one.
         decode b1, keep the values (the top-level dict is the envelope's own content and is cleared by design, so
         a shallow copy of it is kept: every nested dict / list / buffer in it is the object from_bytes() produced),
-        decode b2, compare; the same for the octets returned by to_bytes()."""
-        E = self.E
+        decode b2, compare; the same for the octets returned by to_bytes().
+        Every definition: consecutive diagonal assignments.  Definitions with a length / presence callback, a
+        flexible part or a sequence: ALL ordered pairs (equal ones included) of a small assignment set holding the
+        extreme lengths (everything shortest, everything longest, one part longest at a time)."""
         n = len(diag)
         for i in range(n if n > 2 else n - 1):
             v1, v2 = diag[i], diag[(i + 1) % n]
-            b1, b2 = r_pack(self.descs, v1), r_pack(self.descs, v2)
-            if b1 == b2:
-                continue
-            self.cov["history_pairs"] += 1
-            self.cov["evaluations"] += 1
-            try:
-                E.from_bytes(b1)
-                kept = dict(E.c)
-                snap = deep_copy(kept)
-                E.from_bytes(b2)
-                second = deep_copy(E.c)
-            except Exception:
-                continue                    # reported by the round-trip law
+            if v1 != v2:
+                self.history_pair(v1, v2, "history_pairs")
+        small = extreme_assignments(self.descs, self.nextreme)
+        if small:
+            self.cov["programs_order_complete"] = 1
+            for v1 in small:
+                for v2 in small:
+                    self.history_pair(v1, v2, "history_pairs_ordered")
+
+    def history_pair(self, v1, v2, counter):
+        E = self.E
+        b1, b2 = r_pack(self.descs, v1), r_pack(self.descs, v2)
+        self.cov[counter] += 1
+        self.cov["evaluations"] += 1
+        ok = True
+        try:
+            E.from_bytes(b1)
+            kept = dict(E.c)
+            snap = deep_copy(kept)
+            E.from_bytes(b2)
+            second = deep_copy(E.c)
+        except Exception as ex:
+            ok = False
+            self.viol("aliasing:decode-history-raises-" + type(ex).__name__, self.struct_kind,
+                      "from_bytes(%s) then from_bytes(%s) with the same definition raised %s"
+                      % (b1.hex(), b2.hex(), root_cause(ex)))
+        if ok:
             exp2 = r_unpack(self.descs, b2, True)[0]
             if kept != snap:
                 self.viol("aliasing:decode-history", self.struct_kind,
@@ -858,8 +978,8 @@ class Judge:
                           % (b1.hex(), snap, kept, b2.hex()))
             elif second != exp2:
                 self.viol("aliasing:decode-history-second", self.struct_kind,
-                          "second decode with the same definition: from_bytes(%s) = %r, expected %r"
-                          % (b2.hex(), second, exp2))
+                          "second decode with the same definition: from_bytes(%s) after from_bytes(%s) = %r, expected %r"
+                          % (b2.hex(), b1.hex(), second, exp2))
             else:
                 E.c = kept
                 try:
@@ -870,19 +990,20 @@ class Judge:
                 if again is not None and again != b1:
                     self.viol("aliasing:reencode-history", self.struct_kind,
                               "re-encoding the kept first result gives %s, expected %s" % (again.hex(), b1.hex()))
-            try:
-                E.c = deep_copy(v1)
-                o1 = E.to_bytes()
-                c1 = bytes(o1)
-                E.c = deep_copy(v2)
-                o2 = E.to_bytes()
-            except Exception:
-                continue
-            if bytes(o1) != c1 or bytes(o2) != b2 or c1 != b1:
-                self.viol("aliasing:encode-history", self.struct_kind,
-                          "octets returned by to_bytes() for %r changed / differ after encoding %r with the same "
-                          "definition: %s then %s, expected %s then %s"
-                          % (v1, v2, bytes(o1).hex(), bytes(o2).hex(), b1.hex(), b2.hex()))
+        try:
+            E.c = deep_copy(v1)
+            o1 = E.to_bytes()
+            c1 = bytes(o1)
+            E.c = deep_copy(v2)
+            o2 = E.to_bytes()
+        except Exception as ex:
+            self.viol("aliasing:encode-history-raises-" + type(ex).__name__, self.struct_kind,
+                      "to_bytes(%r) then to_bytes(%r) with the same definition raised %s" % (v1, v2, root_cause(ex)))
+            return
+        if bytes(o1) != c1 or bytes(o2) != b2 or c1 != b1:
+            self.viol("aliasing:encode-history", self.struct_kind,
+                      "to_bytes(%r) then to_bytes(%r) with the same definition returned %s then %s (first one now %s), "
+                      "canonical %s then %s" % (v1, v2, c1.hex(), bytes(o2).hex(), bytes(o1).hex(), b1.hex(), b2.hex()))
 
     # -- helpers ----------------------------------------------------------
     def culprit_enc(self, vals, got, exp):
@@ -914,6 +1035,8 @@ class Judge:
         """-> ('ok', vals, consumed) | ('err',) | ('exc', name)"""
         try:
             n = E.from_bytes(data)
+            if self.nested and runaway(E.c, len(data)):
+                return ("exc", "runaway-result")          # never copied, compared or printed
             return ("ok", E.c, n)
         except self.DecodeError:
             return ("err",)
@@ -1358,6 +1481,9 @@ def work(chunk):
     sample = None
     chunk, quick = chunk
     for prog, maxsize, cap in chunk:
+        if len(out) >= CHUNK_LIMIT:
+            cov["programs_skipped_after_violations"] = cov.get("programs_skipped_after_violations", 0) + 1
+            continue
         size = pick_size(prog, maxsize, cap)
         ndiag = 3 if (quick or (prog[0] == "env" and len(prog[1]) == 4)) else 5
         j = judge_prog(prog, size, ndiag)
